@@ -71,3 +71,58 @@ pub fn run(seed: u64, tier: &str, out: &mut Out) {
         out.emit(&format!("KEY {key} len={len:?} start={start_pos} finished={finished} hist={}", hist.join(",")), &format!("ORACLE {verdict}"));
     }
 }
+
+/// C11 (trackers): a stateful custom key records every `tick` / `reset` / `write` it receives together with the
+/// state it is handed. Oracle: it is ticked exactly by the operations that update the bar (once, with the
+/// position the bar has afterwards), reset exactly by `reset()` and with the *reset* state (position 0, not
+/// finished, zero elapsed time), and always writes from the current state.
+#[derive(Clone)]
+struct Spy(std::sync::Arc<std::sync::Mutex<Vec<String>>>);
+impl indicatif::style::ProgressTracker for Spy {
+    fn clone_box(&self) -> Box<dyn indicatif::style::ProgressTracker> { Box::new(self.clone()) }
+    fn tick(&mut self, s: &indicatif::ProgressState, _: vh::Instant) { self.0.lock().unwrap().push(format!("tick {} {}", s.pos(), s.is_finished())); }
+    fn reset(&mut self, s: &indicatif::ProgressState, _: vh::Instant) { self.0.lock().unwrap().push(format!("reset {} {} {}", s.pos(), s.is_finished(), s.elapsed().as_nanos())); }
+    fn write(&self, s: &indicatif::ProgressState, w: &mut dyn std::fmt::Write) { self.0.lock().unwrap().push(format!("write {} {}", s.pos(), s.is_finished())); let _ = write!(w, "k"); }
+}
+
+pub fn run_trackers(seed: u64, tier: &str, out: &mut Out) {
+    let mut rng = Rng::new(seed ^ 0x11);
+    let n = if tier == "thorough" { 100_000 } else { 3_000 };
+    let t0 = 1_000_000_000_000u64;
+    for _ in 0..n {
+        vh::set_auto_advance_ns(0); vh::set_now_ns(t0);
+        let rec = Recorder::new(4, 80, false);
+        let visible = rng.chance(2, 3);
+        let pb = ProgressBar::with_draw_target(Some(rng.range(1, 50)), if visible { ProgressDrawTarget::term_like(Box::new(rec.clone())) } else { ProgressDrawTarget::hidden() });
+        let log = std::sync::Arc::new(std::sync::Mutex::new(Vec::new()));
+        pb.set_style(ProgressStyle::with_template("{pos} {k}").unwrap().with_key("k", Spy(log.clone())));
+        log.lock().unwrap().clear();
+        let mut now = t0; let mut hist: Vec<String> = Vec::new(); let mut verdict = String::from("ok");
+        for _ in 0..rng.range(1, 14) {
+            let op = rng.below(13);
+            let name = match op {
+                0 => { pb.tick(); "tick" } 1 => { pb.set_message("m"); "set_message" } 2 => { pb.set_prefix("p"); "set_prefix" }
+                3 => { pb.set_length(rng.range(1, 60)); "set_length" } 4 => { pb.inc_length(1); "inc_length" } 5 => { pb.unset_length(); "unset_length" }
+                6 => { pb.inc(rng.below(4)); "inc" } 7 => { pb.set_position(rng.below(40)); "set_position" }
+                8 => { pb.reset(); "reset" } 9 => { if rng.chance(1, 2) { pb.reset_eta() } else { pb.reset_elapsed() }; "reset_eta_or_elapsed" }
+                10 => { match rng.below(3) { 0 => pb.finish(), 1 => pb.abandon(), _ => pb.finish_with_message("done") }; "finish" }
+                11 => { let d = *rng.pick(&[1u64, 1_000_000, 50_000_000, 2_000_000_000]); now += d; vh::set_now_ns(now); "adv" }
+                _ => { pb.update(|s| s.set_pos(3)); "update" }
+            };
+            hist.push(name.to_string());
+            let evs: Vec<String> = std::mem::take(&mut *log.lock().unwrap());
+            let ticks: Vec<&String> = evs.iter().filter(|e| e.starts_with("tick")).collect();
+            let resets: Vec<&String> = evs.iter().filter(|e| e.starts_with("reset")).collect();
+            let (pos, fin) = (pb.position(), pb.is_finished());
+            if verdict != "ok" { continue; }
+            let want_ticks: Option<usize> = match name { "tick" | "set_message" | "set_prefix" | "set_length" | "inc_length" | "unset_length" | "update" => Some(1), "inc" | "set_position" => None, _ => Some(0) };
+            if let Some(w) = want_ticks { if ticks.len() != w { verdict = format!("FAIL tracker-ticks {name}: {} tick calls, expected {w} (history {})", ticks.len(), hist.join(",")); } } else if ticks.len() > 1 { verdict = format!("FAIL tracker-ticks {name}: {} tick calls", ticks.len()); }
+            if verdict == "ok" { for t in &ticks { if **t != format!("tick {pos} {fin}") { verdict = format!("FAIL tracker-tick-state {name}: got {t:?}, bar has pos={pos} finished={fin}"); } } }
+            if verdict == "ok" { let want = if name == "reset" { 1 } else { 0 }; if resets.len() != want { verdict = format!("FAIL tracker-resets {name}: {} reset calls, expected {want}", resets.len()); } }
+            if verdict == "ok" { for r in &resets { if **r != "reset 0 false 0" { verdict = format!("FAIL tracker-reset-state reset() handed the tracker {r:?} (position, finished, elapsed ns); the bar after reset has 0 false 0 (history {})", hist.join(",")); } } }
+            if verdict == "ok" { for e in evs.iter().filter(|e| e.starts_with("write")) { if *e != format!("write {pos} {fin}") { verdict = format!("FAIL tracker-write-state {name}: got {e:?}, bar has pos={pos} finished={fin}"); } } }
+        }
+        std::mem::forget(pb);
+        out.emit(&format!("NOMODEL TRACKERS visible={visible} {}", hist.join(",")), &format!(" ORACLE {verdict}"));
+    }
+}
